@@ -11,6 +11,11 @@ import (
 	"time"
 
 	"verifsim/harness/core"
+	_ "verifsim/harness/bcastx"
+	_ "verifsim/harness/ccontx"
+	_ "verifsim/harness/ccallx"
+	_ "verifsim/harness/oncex"
+	_ "verifsim/harness/promisex"
 	_ "verifsim/harness/csyncx"
 	"verifsim/simrt"
 )
